@@ -11,7 +11,7 @@ CONSTANTS
   Cap = 2
   MaxNest = 1
   Ops = {"CtxRegister", "CtxDeregister", "Dispatch", "CtxQuit", "ModRegister", "ModDeregister", "ModStart", "ModPause", "ModStop", "DropRef", "ForeignCall", "ForeignTell"}
-  CbOps = {}
+  CbOps = {"ForeignCall", "ForeignTell"}
   EvalVals = {TRUE}
   Prios = {"N"}
   BatchSizes = {}
@@ -30,7 +30,7 @@ CONSTANTS
   SubOneshot = {FALSE}
   Senders = {"A", "B"}
   QuitCodes = {0, 1}
-  ForeignOps = {"start", "pause", "resume", "stop", "deregister", "subscribe", "unsubscribe", "tell", "publish", "pill", "become", "unbecome", "unstash", "batchsize", "batchtimeout", "tokenbucket", "fdreg", "fddereg", "srclen", "stats", "dump", "log", "bind"}
+  ForeignOps = {"start", "pause", "resume", "stop", "deregister", "subscribe", "unsubscribe", "tell", "publish", "pill", "become", "unbecome", "unstash", "batchsize", "batchtimeout", "tokenbucket", "fdreg", "fddereg", "srclen", "stats", "bind"}
   MaxRefs = 1
   MaxHeld = 0
   Setup = ""
